@@ -219,8 +219,15 @@ class World(object):
         self.tree = tree
         self.prefix = prefix
         self.roots = {False: ['root'], True: ['root', 'root2'], 'reversed': ['root2', 'root'], 'nested': ['root', 'root2'], 'index0': ['root', 'root2'],
-                      'cached': ['root', 'root2']}[two_paths]
+                      'cached': ['root', 'root2'], 'spell-path': ['root'], 'spell-bytes': ['root'],
+                      'spell-iter': ['root', 'root2'], 'spell-paths': ['root', 'root2']}[two_paths]
         s1 = StaticApplication([os.path.join(tree.base, r) for r in self.roots])
+        if str(two_paths).startswith('spell-'):
+            # other spellings of the search path: one pathlib.Path, one bytes path, a one-shot iterable, Path objects
+            import pathlib
+            full = [os.path.join(tree.base, r) for r in self.roots]
+            s1 = StaticApplication({'spell-path': lambda: pathlib.Path(full[0]), 'spell-bytes': lambda: os.fsencode(full[0]),
+                                    'spell-iter': lambda: iter(full), 'spell-paths': lambda: tuple(pathlib.Path(f) for f in full)}[two_paths]())
         s2 = StaticApplication(tree.fb)
         if two_paths == 'index0':
             # the way Application.serve() mounts a static directory: added at the head of a live application
@@ -324,6 +331,8 @@ def configs(tier):
     out.append(('/v1/s', 'redirect', 'nested'))
     out.append(('/v1/s', 'strict', 'nested'))
     out.append(('/s', 'redirect', 'index0'))
+    for sp in ('spell-path', 'spell-bytes', 'spell-iter', 'spell-paths'):
+        out.append(('/s', 'redirect', sp))
     out.append(('/s', 'redirect', 'cached'))
     out.append(('/', 'strict', 'cached'))
     return out
